@@ -489,8 +489,10 @@ def run_check(prop_id: str, tier: str, seed: int, replay: dict | None = None) ->
             "violations": 1 if exit_code else 0,
         }
         if replay is None:
-            C.EVIDENCE.mkdir(exist_ok=True)
-            (C.EVIDENCE / f"{spec.ID}.json").write_text(json.dumps(ev, indent=1, default=str))
+            # evidence/<id>.json exists for properties only; a tie module run on its own leaves its record under work/
+            dest = C.EVIDENCE if re.fullmatch(r"C\d\d", spec.ID) else C.WORK / "tie-evidence"
+            dest.mkdir(parents=True, exist_ok=True)
+            (dest / f"{spec.ID}.json").write_text(json.dumps(ev, indent=1, default=str))
         for tid, t in tie_info.items():
             C.log(f"[{spec.ID}] tie {tid}: cases={t['cases']} D={t['disagreements']} F={t['oracle_failures']} {t['seconds']}s")
         C.log(f"[{spec.ID}] tier={tier} cases={len(cases)} D={len(D)} F={len(F)} P={len(P)} "
